@@ -602,6 +602,66 @@ class _Small(ast.NodeTransformer):
             return [asg, node]
         return node
 
+    def visit_UnaryOp(self, node: ast.UnaryOp):  # noqa: N802
+        self.generic_visit(node)
+        # De Morgan: negations are pushed inward
+        if isinstance(node.op, ast.Not) and isinstance(node.operand, ast.BoolOp):
+            inner = node.operand
+            new_op = ast.Or() if isinstance(inner.op, ast.And) else ast.And()
+            self.count += 1
+            return ast.copy_location(ast.BoolOp(op=new_op, values=[_negate(v) for v in inner.values]), node)
+        if isinstance(node.op, ast.Not) and isinstance(node.operand, ast.Compare) and len(node.operand.ops) == 1 and type(node.operand.ops[0]) in _NEGOP:
+            self.count += 1
+            return _negate(node.operand)
+        if isinstance(node.op, ast.Not) and isinstance(node.operand, ast.UnaryOp) and isinstance(node.operand.op, ast.Not) and False:
+            return node.operand.operand
+        return node
+
+    def visit_Dict_call(self, node: ast.Call):
+        return node
+
+    def _clean_block(self, stmts: List[ast.stmt], is_func_body: bool) -> List[ast.stmt]:
+        out = [st for st in stmts if not isinstance(st, ast.Pass)] or stmts[:1]
+        if is_func_body and len(out) > 1 and isinstance(out[-1], ast.Return) and (out[-1].value is None or (isinstance(out[-1].value, ast.Constant) and out[-1].value.value is None)):
+            out = out[:-1]
+        # `t = a` directly followed by `if c: t = b` (no else) -> if c: t = b else: t = a
+        res: List[ast.stmt] = []
+        i = 0
+        while i < len(out):
+            a = out[i]
+            b = out[i + 1] if i + 1 < len(out) else None
+            if (
+                isinstance(a, ast.Assign) and len(a.targets) == 1 and isinstance(a.targets[0], ast.Name)
+                and isinstance(a.value, (ast.Constant, ast.Name, ast.Attribute))
+                and isinstance(b, ast.If) and not b.orelse and len(b.body) == 1
+                and isinstance(b.body[0], ast.Assign) and len(b.body[0].targets) == 1 and isinstance(b.body[0].targets[0], ast.Name)
+                and b.body[0].targets[0].id == a.targets[0].id
+                and not any(isinstance(x, ast.Name) and x.id == a.targets[0].id for x in ast.walk(b.test))
+                and not any(isinstance(x, (ast.Await, ast.NamedExpr)) for x in ast.walk(b.test))
+                and not any(isinstance(x, ast.Name) and x.id == a.targets[0].id for x in ast.walk(b.body[0].value))
+            ):
+                b.orelse = [a]
+                res.append(b)
+                self.count += 1
+                i += 2
+                continue
+            res.append(a)
+            i += 1
+        return res
+
+    def generic_visit(self, node: ast.AST) -> ast.AST:
+        node = super().generic_visit(node)
+        for fld in ("body", "orelse", "finalbody"):
+            v = getattr(node, fld, None)
+            if isinstance(v, list) and v and isinstance(v[0], ast.stmt):
+                if fld == "orelse" and all(isinstance(st, ast.Pass) for st in v):
+                    setattr(node, fld, [])
+                    continue
+                setattr(node, fld, self._clean_block(v, isinstance(node, FuncDef) and fld == "body"))
+        if isinstance(node, ast.ExceptHandler):
+            node.body = self._clean_block(node.body, False)
+        return node
+
     def visit_Match(self, node: ast.Match):  # noqa: N802
         """`match x: case A(): ... case "s": ... case _: ...` -> the if/elif chain it abbreviates
         (class patterns without sub-patterns, value / singleton patterns, or-patterns, guards, wildcard)."""
@@ -750,6 +810,9 @@ class _Small(ast.NodeTransformer):
     def visit_Call(self, node: ast.Call):  # noqa: N802
         self.generic_visit(node)
         name = _dotted(node.func)
+        if name == "dict" and not node.args and node.keywords and all(k.arg is not None for k in node.keywords):
+            self.count += 1
+            return ast.copy_location(ast.Dict(keys=[ast.Constant(value=k.arg) for k in node.keywords], values=[k.value for k in node.keywords]), node)
         params = KW2POS.get(name or "")
         if params and node.keywords and not any(isinstance(a, ast.Starred) for a in node.args):
             while node.keywords and len(node.args) < len(params) and node.keywords[0].arg == params[len(node.args)]:
@@ -959,7 +1022,7 @@ def inline_single_use_temps(tree: ast.Module) -> int:
                             continue
                         if any(isinstance(x, (ast.Await, ast.Yield, ast.YieldFrom, ast.NamedExpr, ast.Lambda)) for x in ast.walk(a.value)):
                             continue
-                        if isinstance(a.value, (ast.Constant, ast.List, ast.Dict, ast.Set, ast.ListComp, ast.DictComp, ast.SetComp, ast.GeneratorExp)):
+                        if isinstance(a.value, (ast.Constant, ast.ListComp, ast.DictComp, ast.SetComp, ast.GeneratorExp)) or (isinstance(a.value, (ast.List, ast.Dict, ast.Set)) and not (a.value.elts if not isinstance(a.value, ast.Dict) else a.value.keys)):
                             continue  # initial values of accumulators / flags are not temps
                         if isinstance(b, (ast.Expr, ast.Assign, ast.AnnAssign, ast.AugAssign, ast.Return, ast.Raise)):
                             region: List[ast.AST] = [b]
@@ -972,6 +1035,9 @@ def inline_single_use_temps(tree: ast.Module) -> int:
                             continue
                         if any(isinstance(x, (ast.Lambda, ast.ListComp, ast.SetComp, ast.DictComp, ast.GeneratorExp)) and any(u is uses[0] for u in ast.walk(x)) for r in region for x in ast.walk(r)):
                             continue  # would be re-evaluated per element / later
+                        first = [x for r in region for x in (_evaluated_first(r.value) if isinstance(r, (ast.Expr, ast.Assign, ast.AnnAssign, ast.AugAssign, ast.Return)) and getattr(r, "value", None) is not None else _evaluated_first(r.exc) if isinstance(r, ast.Raise) and r.exc is not None else _evaluated_first(r) if isinstance(r, ast.expr) else [])]
+                        if not any(x is uses[0] for x in first):
+                            continue  # the use is conditional (short-circuit / branch): the value must still be computed here
 
                         class Sub(ast.NodeTransformer):
                             def visit_Name(self, node: ast.Name):  # noqa: N802
@@ -1051,6 +1117,257 @@ def expand_final_aliases(tree: ast.Module) -> int:
                     return node
 
             m.body = [Sub().visit(st) for st in m.body]
+            _drop_dead_alias_defs(m, set(aliases))
+    if count:
+        ast.fix_missing_locations(tree)
+    return count
+
+
+def global_signatures(known: Dict[str, Dict[str, object]]) -> Dict[str, List[str]]:
+    """name -> positional parameter names, for functions / methods / classes (their __init__) whose
+    simple name is defined exactly once in the pinned repository."""
+    seen: Dict[str, List[List[str]]] = {}
+    for mod, k in known.items():
+        for q, params in (k.get("params") or {}).items():  # type: ignore[union-attr]
+            parts = q.split(".")
+            name = parts[-1]
+            if name == "__init__" and len(parts) >= 2:
+                name = parts[-2]
+            elif name.startswith("__"):
+                continue
+            ps = [p_ for p_ in params if p_ not in ("self", "cls")]
+            seen.setdefault(name, []).append(ps)
+    return {n: v[0] for n, v in seen.items() if len(v) == 1}
+
+
+def keywords_to_positional(tree: ast.Module, sigs: Dict[str, List[str]]) -> int:
+    """`f(a, kw=b)` where `kw` names the next positional parameter of the (uniquely named) repository
+    callable is `f(a, b)`."""
+    count = 0
+    for c in [n for n in ast.walk(tree) if isinstance(n, ast.Call)]:
+        if not c.keywords or any(isinstance(a, ast.Starred) for a in c.args) or any(k.arg is None for k in c.keywords):
+            continue
+        name = c.func.attr if isinstance(c.func, ast.Attribute) else c.func.id if isinstance(c.func, ast.Name) else None
+        params = sigs.get(name or "")
+        if not params:
+            continue
+        kw = {k.arg: k for k in c.keywords}
+        if not set(kw) <= set(params):
+            continue
+        moved = False
+        while len(c.args) < len(params) and params[len(c.args)] in kw:
+            k = kw.pop(params[len(c.args)])
+            c.args.append(k.value)
+            c.keywords.remove(k)
+            moved = True
+        if moved:
+            count += 1
+    return count
+
+
+def propagate_param_reads(tree: ast.Module) -> int:
+    """`kind = scope["type"]` (scope a parameter that is never rebound, no store to scope[...] in the
+    function, the local bound once) is a name for the read: its uses read as the expression."""
+    count = 0
+    for f in [n for n in ast.walk(tree) if isinstance(n, FuncDef)]:
+        params = {a.arg for a in f.args.posonlyargs + f.args.args + f.args.kwonlyargs} - {"self", "cls"}
+        stores: Dict[str, int] = {}
+        for n in ast.walk(f):
+            if isinstance(n, ast.Name) and isinstance(n.ctx, (ast.Store, ast.Del)):
+                stores[n.id] = stores.get(n.id, 0) + 1
+        mutated = {n.value.id for n in ast.walk(f) if isinstance(n, (ast.Subscript, ast.Attribute)) and isinstance(n.ctx, (ast.Store, ast.Del)) and isinstance(n.value, ast.Name)}
+        in_loop = {id(x) for lp in ast.walk(f) if isinstance(lp, (ast.For, ast.AsyncFor, ast.While)) for x in ast.walk(lp)}
+        aliases: Dict[str, ast.expr] = {}
+        for st in ast.walk(f):
+            if isinstance(st, ast.Assign) and len(st.targets) == 1 and isinstance(st.targets[0], ast.Name) and id(st) not in in_loop:
+                t = st.targets[0].id
+                v = st.value
+                root = v
+                ok = True
+                while isinstance(root, (ast.Subscript, ast.Attribute)):
+                    if isinstance(root, ast.Subscript) and not isinstance(root.slice, ast.Constant):
+                        ok = False
+                    root = root.value
+                if not ok or v is root or not isinstance(root, ast.Name):
+                    continue
+                if root.id in params and stores.get(root.id, 0) == 0 and root.id not in mutated and stores.get(t) == 1 and t not in params:
+                    aliases[t] = v
+        if not aliases or any(isinstance(n, FuncDef + (ast.Lambda,)) and n is not f for n in ast.walk(f)):
+            continue
+
+        class Sub(ast.NodeTransformer):
+            def visit_Name(self, node: ast.Name):  # noqa: N802
+                nonlocal count
+                if isinstance(node.ctx, ast.Load) and node.id in aliases:
+                    count += 1
+                    return ast.copy_location(copy.deepcopy(aliases[node.id]), node)
+                return node
+
+        f.body = [Sub().visit(st) for st in f.body]
+        _drop_dead_alias_defs(f, set(aliases))
+    if count:
+        ast.fix_missing_locations(tree)
+    return count
+
+
+def _evaluated_first(e: ast.AST) -> List[ast.AST]:
+    """Sub-expressions of `e` that are evaluated whenever `e` is (no short-circuit, no branch)."""
+    out: List[ast.AST] = [e]
+    if isinstance(e, ast.BoolOp):
+        out += _evaluated_first(e.values[0])
+    elif isinstance(e, ast.Compare):
+        out += _evaluated_first(e.left) + _evaluated_first(e.comparators[0])
+    elif isinstance(e, ast.IfExp):
+        out += _evaluated_first(e.test)
+    elif isinstance(e, (ast.Lambda, ast.ListComp, ast.SetComp, ast.DictComp, ast.GeneratorExp)):
+        pass
+    else:
+        for c in ast.iter_child_nodes(e):
+            if isinstance(c, ast.expr):
+                out += _evaluated_first(c)
+    return out
+
+
+def _drop_dead_alias_defs(f: ast.AST, names: Set[str]) -> None:
+    """Remove `t = <read>` definitions of aliases that no longer have any reader - but only where the
+    read (a subscript may raise) is repeated unconditionally by the very next statement, so that it
+    still happens at the same point on every path."""
+    live = {n.id for n in ast.walk(f) if isinstance(n, ast.Name) and isinstance(n.ctx, ast.Load)}
+    dead = names - live
+    if not dead:
+        return
+    for holder in ast.walk(f):
+        for fld in ("body", "orelse", "finalbody"):
+            stmts = getattr(holder, fld, None)
+            if isinstance(stmts, list) and stmts and isinstance(stmts[0], ast.stmt):
+                kept = []
+                for i, st in enumerate(stmts):
+                    if isinstance(st, ast.Assign) and len(st.targets) == 1 and isinstance(st.targets[0], ast.Name) and st.targets[0].id in dead:
+                        can_raise = any(isinstance(x, ast.Subscript) for x in ast.walk(st.value))
+                        nxt = stmts[i + 1] if i + 1 < len(stmts) else None
+                        region = nxt.test if isinstance(nxt, (ast.If, ast.While)) else nxt.value if isinstance(nxt, (ast.Expr, ast.Assign, ast.AnnAssign, ast.AugAssign, ast.Return)) and getattr(nxt, "value", None) is not None else None
+                        text = ast.unparse(st.value)
+                        if not can_raise or (region is not None and any(ast.unparse(x) == text for x in _evaluated_first(region) if isinstance(x, ast.expr))):
+                            continue
+                    kept.append(st)
+                setattr(holder, fld, kept or [ast.copy_location(ast.Pass(), stmts[0])])
+
+
+def _has_effect(node: ast.AST, attr_chain: str) -> bool:
+    for x in ast.walk(node):
+        if isinstance(x, (ast.Call, ast.Await, ast.Yield, ast.YieldFrom)):
+            return True
+        if isinstance(x, ast.Attribute) and isinstance(x.ctx, (ast.Store, ast.Del)) and (_dotted(x) or "").startswith(attr_chain.split("[")[0]):
+            return True
+    return False
+
+
+def propagate_attr_copies(tree: ast.Module) -> int:
+    """`t = self.x` read again before anything could have changed `self.x` (no call, await or store
+    in between) is `self.x`: forward copy propagation up to and including the first statement with
+    an effect (its operands are evaluated before the effect happens)."""
+    count = 0
+    for f in [n for n in ast.walk(tree) if isinstance(n, FuncDef)]:
+        stores: Dict[str, int] = {}
+        for n in ast.walk(f):
+            if isinstance(n, ast.Name) and isinstance(n.ctx, (ast.Store, ast.Del)):
+                stores[n.id] = stores.get(n.id, 0) + 1
+        params = {a.arg for a in f.args.posonlyargs + f.args.args + f.args.kwonlyargs}
+        for holder in list(ast.walk(f)):
+            for fld in ("body", "orelse", "finalbody"):
+                stmts = getattr(holder, fld, None)
+                if not (isinstance(stmts, list) and stmts and isinstance(stmts[0], ast.stmt)):
+                    continue
+                i = 0
+                while i < len(stmts):
+                    a = stmts[i]
+                    i += 1
+                    if not (isinstance(a, ast.Assign) and len(a.targets) == 1 and isinstance(a.targets[0], ast.Name)):
+                        continue
+                    t = a.targets[0].id
+                    chain = _dotted(a.value)
+                    if not chain or not chain.startswith("self.") or stores.get(t) != 1 or t in params:
+                        continue
+                    total = sum(1 for n in ast.walk(f) if isinstance(n, ast.Name) and n.id == t and isinstance(n.ctx, ast.Load))
+                    replaced = 0
+
+                    class Sub(ast.NodeTransformer):
+                        def visit_Name(self, node: ast.Name):  # noqa: N802
+                            nonlocal replaced
+                            if isinstance(node.ctx, ast.Load) and node.id == t:
+                                replaced += 1
+                                return ast.copy_location(copy.deepcopy(a.value), node)
+                            return node
+
+                    def block(seq: List[ast.stmt], start: int) -> bool:
+                        """propagate into seq[start:]; returns True when an effect was passed"""
+                        for j in range(start, len(seq)):
+                            st = seq[j]
+                            if isinstance(st, ast.If):
+                                st.test = Sub().visit(st.test)
+                                if _has_effect(st.test, chain):
+                                    return True
+                                d1 = block(st.body, 0)
+                                d2 = block(st.orelse, 0)
+                                if d1 or d2:
+                                    return True
+                                continue
+                            if isinstance(st, (ast.Expr, ast.Assign, ast.AnnAssign, ast.AugAssign, ast.Return, ast.Raise)):
+                                seq[j] = Sub().visit(st)
+                                if _has_effect(seq[j], chain):
+                                    return True
+                                continue
+                            return True  # loops, try, with: stop
+                        return False
+
+                    block(stmts, i)
+                    if replaced:
+                        count += replaced
+                        if replaced == total:
+                            stmts.remove(a)
+                            i -= 1
+    if count:
+        ast.fix_missing_locations(tree)
+    return count
+
+
+def inline_branch_aliases(tree: ast.Module) -> int:
+    """`if c: f = A else: f = B` followed by the only statement that reads `f` (A, B plain names or
+    attribute chains) is `if c: S[A] else: S[B]`."""
+    count = 0
+    for fn in [n for n in ast.walk(tree) if isinstance(n, FuncDef)]:
+        for holder in list(ast.walk(fn)):
+            for fld in ("body", "orelse", "finalbody"):
+                stmts = getattr(holder, fld, None)
+                if not (isinstance(stmts, list) and stmts and isinstance(stmts[0], ast.stmt)):
+                    continue
+                i = 0
+                while i + 1 < len(stmts):
+                    a, b = stmts[i], stmts[i + 1]
+                    i += 1
+                    if not (isinstance(a, ast.If) and len(a.body) == 1 and len(a.orelse) == 1 and all(isinstance(x, ast.Assign) and len(x.targets) == 1 and isinstance(x.targets[0], ast.Name) and _dotted(x.value) is not None for x in (a.body[0], a.orelse[0]))):
+                        continue
+                    t = a.body[0].targets[0].id
+                    if a.orelse[0].targets[0].id != t:
+                        continue
+                    loads = [n for n in ast.walk(fn) if isinstance(n, ast.Name) and n.id == t and isinstance(n.ctx, ast.Load)]
+                    stores_ = [n for n in ast.walk(fn) if isinstance(n, ast.Name) and n.id == t and isinstance(n.ctx, ast.Store)]
+                    if len(loads) != 1 or len(stores_) != 2 or not isinstance(b, (ast.Expr, ast.Assign, ast.AnnAssign, ast.Return)):
+                        continue
+                    if not any(x is loads[0] for x in ast.walk(b)):
+                        continue
+                    def mk(val: ast.expr) -> ast.stmt:
+                        c = copy.deepcopy(b)
+                        class Sub(ast.NodeTransformer):
+                            def visit_Name(self, node: ast.Name):  # noqa: N802
+                                if node.id == t and isinstance(node.ctx, ast.Load):
+                                    return ast.copy_location(copy.deepcopy(val), node)
+                                return node
+                        return Sub().visit(c)
+                    a.body = [mk(a.body[0].value)]
+                    a.orelse = [mk(a.orelse[0].value)]
+                    del stmts[i]
+                    count += 1
     if count:
         ast.fix_missing_locations(tree)
     return count
@@ -1100,6 +1417,10 @@ def _literal_like(e: ast.expr) -> bool:
     if isinstance(e, ast.Call) and isinstance(e.func, ast.Name) and e.func.id == "frozenset" and len(e.args) == 1 and not e.keywords:
         return _literal_like(e.args[0])
     if isinstance(e, ast.UnaryOp) and isinstance(e.operand, ast.Constant):
+        return True
+    if isinstance(e, ast.Subscript) and isinstance(e.value, ast.Constant) and isinstance(e.slice, ast.Constant):
+        return True
+    if isinstance(e, ast.BinOp) and _literal_like(e.left) and _literal_like(e.right):
         return True
     return False
 
@@ -1551,9 +1872,14 @@ def _replace_returns(body: List[ast.stmt], mk) -> List[ast.stmt]:
 # --------------------------------------------------------------------------- driver
 
 
+_SIGS: Dict[int, Dict[str, List[str]]] = {}
+
+
 def canonicalise(name: str, tree: ast.Module, known: Dict[str, Dict[str, List[str]]]) -> Dict[str, object]:
     stats: Dict[str, object] = {}
     k = known.get(name)
+    if id(known) not in _SIGS:
+        _SIGS[id(known)] = global_signatures(known)
     if k is not None and "classes" in k:
         sr = scalar_replace(tree, set(k["classes"]))
         if sr:
@@ -1588,6 +1914,10 @@ def canonicalise(name: str, tree: ast.Module, known: Dict[str, Dict[str, List[st
         if inl.count:
             stats["inlined_calls"] = inl.count
             stats["inlined_helpers"] = inl.inlined
+            if k.get("locals"):
+                ren2 = undo_local_renames(tree, k["locals"])
+                if ren2:
+                    stats["local_renames_undone"] = list(stats.get("local_renames_undone", [])) + ren2  # type: ignore[arg-type]
         n = propagate_constants(tree, set(k["names"]))
         if n:
             stats["constants_propagated"] = n
@@ -1597,6 +1927,19 @@ def canonicalise(name: str, tree: ast.Module, known: Dict[str, Dict[str, List[st
         nal = expand_final_aliases(tree)
         if nal:
             stats["final_aliases_expanded"] = nal
+    if k is not None:
+        nk = keywords_to_positional(tree, _SIGS[id(known)])
+        if nk:
+            stats["keywords_made_positional"] = nk
+        npr = propagate_param_reads(tree)
+        if npr:
+            stats["parameter_reads_propagated"] = npr
+        nac = propagate_attr_copies(tree)
+        if nac:
+            stats["attribute_copies_propagated"] = nac
+        nba = inline_branch_aliases(tree)
+        if nba:
+            stats["branch_aliases_inlined"] = nba
     nt = inline_single_use_temps(tree)
     if nt:
         stats["single_use_temps_inlined"] = nt
